@@ -271,6 +271,19 @@ impl CoreInner {
 		table_id: u64,
 		wal_number: u64,
 	) -> Result<Arc<Table>> {
+		self.flush_immutable_to_sst_with_log_number(memtable, table_id, wal_number + 1)
+	}
+
+	/// Same as `flush_immutable_to_sst`, recording `log_number` (WAL segments below it
+	/// are flushed) instead of deriving it from the memtable's segment. Recovery uses it
+	/// for the pieces of a segment that did not fit one memtable: the segment is flushed
+	/// only when its LAST piece is on disk.
+	fn flush_immutable_to_sst_with_log_number(
+		&self,
+		memtable: Arc<MemTable>,
+		table_id: u64,
+		log_number: u64,
+	) -> Result<Arc<Table>> {
 		let collect_bptree = self.versioned_index.is_some();
 
 		// Step 1: Flush memtable to SST (with VLog separation for large values)
@@ -315,13 +328,13 @@ impl CoreInner {
 		// Step 3: Prepare atomic changeset
 		let mut changeset = ManifestChangeSet::default();
 		changeset.new_tables.push((0, Arc::clone(&table)));
-		changeset.log_number = Some(wal_number + 1);
+		changeset.log_number = Some(log_number);
 
 		log::debug!(
 			"Changeset prepared: table_id={}, log_number={} (WAL #{:020} flushed)",
 			table_id,
-			wal_number + 1,
-			wal_number
+			log_number,
+			log_number.saturating_sub(1)
 		);
 
 		// Step 4: Apply changeset atomically
@@ -335,7 +348,7 @@ impl CoreInner {
 			let error = Error::Other(format!(
 				"Failed to atomically update manifest: table_id={}, log_number={}: {}",
 				table_id,
-				wal_number + 1,
+				log_number,
 				e
 			));
 			self.error_handler.set_error(error.clone(), BackgroundErrorReason::ManifestWrite);
@@ -353,7 +366,7 @@ impl CoreInner {
 		log::info!(
 			"Manifest updated atomically: table_id={}, log_number={}, last_sequence={}",
 			table_id,
-			wal_number + 1,
+			log_number,
 			manifest.get_last_sequence()
 		);
 
@@ -1082,6 +1095,7 @@ impl Core {
 	///
 	/// # Returns
 	/// * `(Option<max_seq_num>, Option<active_memtable>)`
+	#[cfg_attr(not(test), allow(dead_code))]
 	pub(crate) fn replay_wal_with_repair<F>(
 		wal_path: &Path,
 		min_wal_number: u64,
@@ -1092,6 +1106,30 @@ impl Core {
 	) -> Result<(Option<u64>, Option<Arc<MemTable>>)>
 	where
 		F: FnMut(Arc<MemTable>, u64) -> Result<()>,
+	{
+		Self::replay_wal_with_repair_pieces(
+			wal_path,
+			min_wal_number,
+			context,
+			recovery_mode,
+			arena_size,
+			|memtable, wal_number, _segment_complete| flush_memtable(memtable, wal_number),
+		)
+	}
+
+	/// `replay_wal_with_repair` whose callback also learns whether the flushed memtable
+	/// completes its WAL segment (`false`: a later piece of the same segment stays in
+	/// memory as the active memtable, so the segment must not be marked as flushed).
+	pub(crate) fn replay_wal_with_repair_pieces<F>(
+		wal_path: &Path,
+		min_wal_number: u64,
+		context: &str,
+		recovery_mode: WalRecoveryMode,
+		arena_size: usize,
+		mut flush_memtable: F,
+	) -> Result<(Option<u64>, Option<Arc<MemTable>>)>
+	where
+		F: FnMut(Arc<MemTable>, u64, bool) -> Result<()>,
 	{
 		// Replay WAL - returns memtables per segment
 		let (wal_seq_num_opt, memtables) = match replay_wal(wal_path, min_wal_number, arena_size) {
@@ -1167,9 +1205,10 @@ impl Core {
 		let memtable_count = memtables.len();
 		if memtable_count > 1 {
 			log::info!("Recovery: flushing {} intermediate memtables to SST", memtable_count - 1);
+			let last_wal_number = memtables[memtable_count - 1].1;
 			for (memtable, wal_number) in memtables.iter().take(memtable_count - 1) {
 				if !memtable.is_empty() {
-					flush_memtable(Arc::clone(memtable), *wal_number)?;
+					flush_memtable(Arc::clone(memtable), *wal_number, *wal_number < last_wal_number)?;
 				}
 			}
 		}
@@ -1245,16 +1284,21 @@ impl Core {
 		);
 
 		// Replay WAL with configurable recovery mode (returns None if skipped/empty)
-		let (wal_seq_num_opt, recovered_memtable) = Self::replay_wal_with_repair(
+		let (wal_seq_num_opt, recovered_memtable) = Self::replay_wal_with_repair_pieces(
 			&wal_path,
 			min_wal_number,
 			"Database startup",
 			opts.wal_recovery_mode,
 			opts.max_memtable_size,
-			|memtable, wal_number| {
+			|memtable, wal_number, segment_complete| {
 				// Flush intermediate memtable to SST during recovery
 				let table_id = inner.level_manifest.read()?.next_table_id();
-				inner.flush_immutable_to_sst(Arc::clone(&memtable), table_id, wal_number)?;
+				let log_number = if segment_complete { wal_number + 1 } else { wal_number };
+				inner.flush_immutable_to_sst_with_log_number(
+					Arc::clone(&memtable),
+					table_id,
+					log_number,
+				)?;
 				log::info!(
 					"Recovery: flushed memtable to SST table_id={}, wal_number={}",
 					table_id,
@@ -1642,19 +1686,20 @@ impl Tree {
 		}
 
 		// Replay any WAL entries that were restored
-		let (wal_seq_num_opt, recovered_memtable) = Core::replay_wal_with_repair(
+		let (wal_seq_num_opt, recovered_memtable) = Core::replay_wal_with_repair_pieces(
 			&wal_path,
 			manifest_log_number,
 			"Database restore",
 			self.core.inner.opts.wal_recovery_mode,
 			self.core.inner.opts.max_memtable_size,
-			|memtable, wal_number| {
+			|memtable, wal_number, segment_complete| {
 				// Flush intermediate memtable to SST during recovery
 				let table_id = self.core.inner.level_manifest.read()?.next_table_id();
-				self.core.inner.flush_immutable_to_sst(
+				let log_number = if segment_complete { wal_number + 1 } else { wal_number };
+				self.core.inner.flush_immutable_to_sst_with_log_number(
 					Arc::clone(&memtable),
 					table_id,
-					wal_number,
+					log_number,
 				)?;
 				log::info!(
 					"Restore: flushed memtable to SST table_id={}, wal_number={}",
